@@ -4,7 +4,8 @@
 (*       m(model width, -1 unknown)  k(written bytes)                          *)
 (*  Tot  c(case)  s(outcome: value|error|panic|timeout|crash)                  *)
 (*       k(input bytes)  m(bytes allocated)  v(caller's previous value         *)
-(*       modified after a failed decode 0/1)                                   *)
+(*       modified after a failed decode 0/1)  a(1 = the valid encoding the     *)
+(*       fault was applied to still decodes correctly right afterwards)        *)
 EXTENDS Integers, Sequences, FiniteSets, TLC, Json
 VARIABLES l, bad
 TLog == ndJsonDeserialize("trace.ndjson")
@@ -16,6 +17,7 @@ Step == CASE Ev.e = "RT" -> bad' = IF Ev.v # 1 THEN Flag("RoundTripEqual") ELSE 
           [] Ev.e = "Tot" -> bad' = IF Ev.s \notin {"value", "error"} THEN Flag("ReturnsValueOrError." \o Ev.s)
                                     ELSE IF Ev.m > 33554432 + 64 * Ev.k THEN Flag("AllocationProportional")
                                     ELSE IF Ev.v # 0 THEN Flag("FailedDecodeLeavesTargetUntouched")
+                                    ELSE IF Ev.a # 1 THEN Flag("ValidInputDecodesAfterBadInput")
                                     ELSE bad
           [] OTHER -> UNCHANGED bad
 Next == l <= Len(TLog) /\ l' = l + 1 /\ Step
